@@ -13,6 +13,7 @@ import Dtaiverif.Model.SubseqSearch
 import Dtaiverif.Model.Hier
 import Dtaiverif.Model.KMeans
 import Dtaiverif.Model.NW
+import Dtaiverif.Model.Affinity
 
 open Lean
 
@@ -319,12 +320,58 @@ def opNW (j : Json) : Except String Json := do
       | some cols => Json.arr (cols.reverse.map colJ).toArray
       | none => Json.null)]
 
+def ratOfJ (j : Json) : Option Rat :=
+  match j.getArr? with
+  | .ok a =>
+    match (a.getD 0 Json.null).getInt?, (a.getD 1 Json.null).getNat? with
+    | .ok n, .ok d => some (mkRat n d)
+    | _, _ => none
+  | .error _ => none
+
+def ratJ (q : Rat) : Json := Json.arr #[Json.num q.num, Json.num (q.den : Nat)]
+def oratJ (q : Option Rat) : Json := match q with | some x => ratJ x | none => Json.null
+
+/-- op "affinity": the affinity warping-paths matrix in exact rational arithmetic; all numbers are `[num, den]` -/
+def opAffinity (j : Json) : Except String Json := do
+  let r ← getNat j "r"
+  let c ← getNat j "c"
+  let w := getNatD j "window" 0
+  let tab ← (j.getObjVal? "aff") >>= (·.getArr?)
+  let num := fun (k : String) => match j.getObjVal? k with | .ok v => (ratOfJ v).getD 0 | .error _ => (0 : Rat)
+  let win : Nat := if w = 0 then max r c else w
+  let triu : Bool := getBoolD j "onlyTriu" false
+  let g : AffGrid Rat := {
+    r := r, c := c, window := win, onlyTriu := triu,
+    pen := num "pen", tau := num "tau", delta := num "delta", deltaFactor := num "deltaFactor",
+    aff := fun i k => (ratOfJ (tab.getD (i * c + k) Json.null)).getD 0 }
+  return Json.mkObj [("matrix", Json.arr ((affMatrix g).map fun row => Json.arr (row.map oratJ).toArray).toArray)]
+
+/-- op "lc": the match search of LocalConcurrences on an explicit matrix (`null` = masked / -inf) for a
+sequence of `kbest_matches` calls -/
+def opLc (j : Json) : Except String Json := do
+  let rows ← (j.getObjVal? "wp") >>= (·.getArr?)
+  let wp : WP Rat := rows.toList.map fun r => match r.getArr? with | .ok a => a.toList.map ratOfJ | .error _ => []
+  let resetPos := getBoolD j "resetPositivizes" false
+  let pen : Rat := match j.getObjVal? "pen" with | .ok v => (ratOfJ v).getD 0 | .error _ => 0
+  let choose : Option Rat → Option Rat → Option Rat → Nat := if getBoolD j "cRule" false then chooseC pen else choosePy
+  let calls ← (j.getObjVal? "calls") >>= (·.getArr?)
+  let step := fun (acc : WP Rat × List Json) (cj : Json) =>
+    let res := lcCall choose resetPos (getOptNat cj "k") (getNatD cj "minlen" 2) (getBoolD cj "restart" true) acc.1
+    let mj := res.1.map fun m => Json.mkObj [("row", Json.num (m.row : Nat)), ("col", Json.num (m.col : Nat)), ("path", cellsJ m.path)]
+    (res.2, acc.2 ++ [Json.arr mj.toArray])
+  let out := calls.toList.foldl step (wp, [])
+  return Json.mkObj [("calls", Json.arr out.2.toArray),
+    ("negative", cellsJ ((List.range out.1.length).flatMap fun i => ((List.range ((out.1[i]?.getD []).length)).filter fun k =>
+      match out.1.get i k with | some x => decide (x < 0) | none => false).map fun k => (i, k)))]
+
 def dispatch (j : Json) : Except String Json := do
   let op ← (j.getObjVal? "op") >>= (·.getStr?)
   let res ← match op with
     | "dtw" => opDtw j
     | "knn" => opKnn j
     | "hier" => opHier j
+    | "affinity" => opAffinity j
+    | "lc" => opLc j
     | "nw" => opNW j
     | "nearest" => opNearest j
     | "subseq" => opSubseq j
